@@ -13,6 +13,7 @@ import (
 	"path/filepath"
 	"sort"
 	"strconv"
+	"strings"
 
 	"gopkg.in/yaml.v2"
 )
@@ -506,4 +507,55 @@ func (w *World) groundCacheTypes() (fc *FuncCtx) {
 		check(tn.Type(), p.Name+".memCacheDisk", 0, p.Types)
 	}
 	return fc
+}
+
+// groundFNVKey (C04): the shard maps are keyed by the 32-bit FNV-1 hash of addr ++ id only. The
+// abstract view "one entry per (address, id)" needs that key to be injective. The lemma is stated
+// in bit-vector logic with the definition of FNV-1 and decided by the solver; a model is a pair
+// of distinct (address, id) that share a map key, replayed on the real cache.
+func (w *World) groundFNVKey() (fc *FuncCtx) {
+	pkg := w.Pkgs[repoModule+"/ipfix"]
+	fc = &FuncCtx{w: w, pkg: pkg, info: pkg.TypesInfo, key: repoModule + "/ipfix.cachekey", counter: map[string]int{}, allVars: map[*types.Var]bool{}, usedContracts: map[string]bool{},
+		contract: &Contract{Loops: map[int]*LoopContract{}, Opts: map[string]string{}, Pkg: pkg}}
+	for _, n := range []int{4, 16} {
+		name := fmt.Sprintf("ipfix.cachekey#lemma.keyInjective.addr%d", n)
+		o := &Obligation{Name: name, Func: "ipfix.cachekey", Kind: "lemma", Pos: "ipfix/memcache.go (getShard)", fc: fc,
+			Text: fmt.Sprintf("distinct (exporter address of %d octets%s, template id) pairs have distinct shard-map keys (FNV-1 32 of address++id)", n, map[int]string{4: "", 16: " in IPv4-mapped form"}[n])}
+		o.RawQuery = fnvQuery(n)
+		o.RawVars = n + 2
+		fc.obls = append(fc.obls, o)
+	}
+	return fc
+}
+
+func fnvQuery(n int) string {
+	var b strings.Builder
+	b.WriteString("(set-option :produce-models true)\n(set-logic QF_BV)\n")
+	hash := func(prefix string) string {
+		h := "#x811c9dc5"
+		for i := 0; i < n+2; i++ {
+			v := fmt.Sprintf("%s%d", prefix, i)
+			b.WriteString("(declare-const " + v + " (_ BitVec 8))\n")
+			h = "(bvxor (bvmul " + h + " #x01000193) ((_ zero_extend 24) " + v + "))"
+		}
+		return h
+	}
+	h1 := hash("a")
+	h2 := hash("b")
+	var diff []string
+	for i := 0; i < n+2; i++ {
+		diff = append(diff, fmt.Sprintf("(not (= a%d b%d))", i, i))
+	}
+	if n == 16 {
+		// IPv4-mapped form ::ffff:a.b.c.d, the form net.ParseIP and udp6 sockets produce for IPv4 exporters
+		for _, p := range []string{"a", "b"} {
+			for i := 0; i < 10; i++ {
+				b.WriteString(fmt.Sprintf("(assert (= %s%d #x00))\n", p, i))
+			}
+			b.WriteString(fmt.Sprintf("(assert (= %s10 #xff))\n(assert (= %s11 #xff))\n", p, p))
+		}
+	}
+	b.WriteString("(assert (or " + strings.Join(diff, " ") + "))\n")
+	b.WriteString("(assert (= " + h1 + " " + h2 + "))\n(check-sat)\n")
+	return b.String()
 }
